@@ -60,7 +60,9 @@ Definition measure_comp (st : state) (qs0 : list N) (r : T) : outcome (list bool
     let coll := project v qs k in
     let nsq := norm2_vec O coll in
     let coll' := if sltb O (s0 O) nsq then map (fun a => cdivr O a (ssqrt O nsq)) coll else coll in
-    bind (state_new O of_N eps coll') (fun s => Ok (outcome_bits (len qs) k, s))
+    (* a vector that has just been renormalised (its squared norm an ordinary number) is returned as it is; only otherwise
+       is it validated by State::new *)
+    bind (if snormal O nsq then Ok (mkState n coll') else state_new O of_N eps coll') (fun s => Ok (outcome_bits (len qs) k, s))
   end.
 
 (* op.apply(&state, &[q], &[]) for each listed qubit in order *)
